@@ -821,6 +821,22 @@ def boundary_scenarios(rng):
     out.append(mk(1, [([(b"application_name", b"")], []), ([], [])], [sel, ("q", 1, ["select"]), sel]))
     out.append(mk(1, [([(b"application_name", b""), (b"client_encoding", b"")], []), ([(b"options", b""), (b"TimeZone", b"")], [])],
                   [sel, ("q", 1, ["select"]), sel, ("q", 1, ["select"])]))
+    # session-mode pools: one checkout (with sync) per client, the server is kept until the client leaves, cleanup at the end
+    S = "session"
+    out.append(mk(1, [([(b"application_name", b"sess'app\\"), (b"TIMEZONE", b"Europe/Paris"), (b"datestyle", b"German")], []),
+                      ([(b"application_name", b"other"), (b"standard_conforming_strings", b"off")], [])],
+                  [sel, ("q", 0, [("set", "DateStyle", b"it's", False)]), ("q", 0, [("set", "statement_timeout", b"5", False)]), sel,
+                   ("q", 0, ["begin"]), ("q", 0, [("set", "TimeZone", b"X\\Y", False)]), ("q", 0, ["rollback"]), sel, ("x", 0, "X"),
+                   ("q", 1, ["select"]), ("q", 1, [("set", "application_name", "né'w".encode(), False)]), ("q", 1, ["select"]), ("x", 1, "close")], mode=S))
+    out.append(mk(2, [([(b"application_name", b"a'1")], []), ([(b"TimeZone", b"b\\2")], []), ([(b"DateStyle", b"c 3")], [])],
+                  [sel, ("q", 1, ["select"]), ("q", 0, [("set", "search_path", b"x,y", False)]), ("q", 1, ["begin"]), ("q", 1, [("set", "DateStyle", b"in txn", False)]),
+                   ("x", 0, "close"), ("q", 2, ["select"]), ("q", 1, ["commit"]), ("q", 2, ["select"]), ("x", 1, "X"), ("q", 2, ["select"]), ("x", 2, "X")], mode=S))
+    out.append(mk(1, [([(b"application_name", b"doomed")], []), ([], [])],
+                  [sel, ("q", 0, ["begin"]), ("q", 0, [("set", "TimeZone", b"T1", False)]), ("q", 0, ["fail"]), ("q", 0, ["select"]), ("x", 0, "close"),
+                   ("q", 1, ["select"]), ("q", 1, ["select"]), ("x", 1, "X")], mode=S))
+    for v in [NASTY[1], NASTY[3], NONASCII[4], b""]:
+        out.append(mk(1, [([(b"application_name", v), (b"Timezone", v)], []), ([], [])],
+                      [sel, sel, ("x", 0, "X"), ("q", 1, ["select"]), ("q", 1, [("set", "DateStyle", v, False)]), ("q", 1, ["select"]), ("x", 1, "X")], mode=S))
     # D4 (open): a refused startup value defeats the whole sync
     out.append(mk(1, [([(b"application_name", b"app-a")], []), ([(b"application_name", b"app-b"), (b"client_encoding", b"!invalid!LATIN9X")], ["C12-D4-invalid-startup-value"])],
                   [("q", 0, ["begin"]), ("q", 0, [("set", "TimeZone", b"Europe/Paris", False)]), ("q", 0, ["commit"]), ("q", 1, ["select"]), ("q", 0, ["select"])]))
@@ -871,7 +887,7 @@ def check(run):
         "coq/Params/Lex.v transcribes PostgreSQL's scan.l string-literal rules ('' ; backslash escapes in E'' and when standard_conforming_strings=off; \\u/\\U and literal continuation across newlines not modelled) - exercised against the mock backend's own lexer (harness/src/mockpg.rs parse_value) and an independent Python lexer, not against a real PostgreSQL",
         "the backend model (session/local/snapshot GUC layers, ParameterStatus on every change of a reported GUC, RESET ALL, failed-transaction rule, atomic SET batch, abstract validity check) = harness/src/mockpg.rs; PostgreSQL >= 14 defers ParameterStatus to the end of the message, which yields the same maps at ReadyForQuery",
         "values are C strings (NUL-free) and valid UTF-8 (Rust String; read_string is lossy for other bytes, which PostgreSQL never reports for these five GUCs)",
-        "transaction pooling, cleanup_server_connections = true, one pool; session mode and prepared-statement cleanup are not modelled",
+        "transaction-mode and session-mode pools (the mode is a per-client flag of the model), cleanup_server_connections = true, one pool per scenario; prepared-statement cleanup is not modelled",
         "C02's hand-off rule (a connection returned without check-in while in a transaction or flagged is closed) is a hypothesis of the theorems (hb), shown necessary by c12_hb_needed_refuted",
     ]
     run.cov["trusted_base"] = ["coqc 8.16.1 kernel", "vm_compute", "coq/Params/Lex.v (hand transcription of scan.l's literal rules)",
@@ -900,7 +916,8 @@ def check(run):
         ps = 1 if rng.random() < 0.6 else 2
         nc = rng.choice([2, 2, 3])
         with_class = rng.random() < 0.12
-        scns.append(Scn(rng, ps, nc, rng.randint(6, 16), classes if with_class else (), maxlen=1500 if i % 53 == 7 else 400))
+        mode = "session" if rng.random() < 0.35 else "transaction"
+        scns.append(Scn(rng, ps, nc, rng.randint(6, 16), classes if with_class else (), maxlen=1500 if i % 53 == 7 else 400, mode=mode))
     run.log("%d scenarios (%d hand-made)" % (len(scns), nb))
 
     evals = 0
@@ -923,6 +940,7 @@ def check(run):
                 continue
             evals += 1
             dist["pool_size_%d" % s.pool_size] += 1
+            dist["pool_mode_" + s.mode] = dist.get("pool_mode_" + s.mode, 0) + 1
             if s.flags:
                 dist["scenarios_with_known_class"] += 1
             for st in o.startup.values():
@@ -969,7 +987,7 @@ def check(run):
     run.cov["rule"] = ("scenarios = %d hand-made (every value of the nasty list as startup value and through SET on one shared connection; scs=off together with a backslash value; "
                        "SET in committed / rolled-back / failed transactions; SET LOCAL; disconnect inside a transaction; untracked GUCs; COMMIT;SET in one message; regressions of the repaired startup findings "
                        "D1-D3 (non-ASCII / any-case names / empty values at startup); the open finding D4) "
-                       "+ %d seeded random (2-3 clients, pool_size 1 or 2, 6-16 messages of 1-3 statements, startup sets over the five keys in any ASCII case incl. empty and non-ASCII values, values: words, quotes, backslashes, comment and "
+                       "+ %d seeded random (2-3 clients, pool_size 1 or 2, pool_mode transaction (65%%) or session (35%%), 6-16 messages of 1-3 statements, startup sets over the five keys in any ASCII case incl. empty and non-ASCII values, values: words, quotes, backslashes, comment and "
                        "dollar markers, newlines, non-ASCII UTF-8, empty, up to 1.5 kB; 20 kB in a hand-made one). distinct = distinct (statement shape, backend tracked values) and (key, value) pairs seen in SET batches" % (nb, nrand))
     run.cov["samples"] = samples[:4]
     run.cov["input_distribution"] = dist
@@ -980,7 +998,7 @@ def check(run):
 
     if (first_tie or const_bad) and not run.violations:
         # widened monitor search (no model involved) before a tie break is reported without a failing input
-        extra = [Scn(rng, 1 if rng.random() < 0.6 else 2, rng.choice([2, 3]), rng.randint(8, 18)) for _ in range(300)]
+        extra = [Scn(rng, 1 if rng.random() < 0.6 else 2, rng.choice([2, 3]), rng.randint(8, 18), mode=rng.choice(["transaction", "session"])) for _ in range(300)]
         eo, _ = run_batch(run, wire, extra, "c12_w", with_model=False)
         for s2, o2 in zip(extra, eo or []):
             if o2.sane:
